@@ -1,5 +1,5 @@
 """C17 - serialisation is transparent and deserialisation yields a fresh sole owner."""
-from .. import atomics, balance, cfg, core, model
+from .. import atomics, balance, cfg, core, inline, model
 from ..effects import ZERO, vget
 from ..facts import operand_local, operand_place
 from . import c03, c04, c14
@@ -87,6 +87,7 @@ def run(ctx, rep):
             if not bs:
                 rep.bad("ANCHOR-LOST", "R-SERDE/%s::serialize" % h, "Serialize impl for %s is missing in a serde-enabled configuration" % h, None, tag)
             for b in bs:
+                b = inline.inlined(F, b["key"]) or b  # a private helper shared by the impls is judged as part of each
                 B = cfg.Body(b)
                 key = b["key"]
                 user_calls = [(bi, t) for bi, t in B.calls() if not isinstance(t.get("resolved"), dict) and not (t.get("resolved") is None)]
@@ -134,6 +135,7 @@ def run(ctx, rep):
             if not bs:
                 rep.bad("ANCHOR-LOST", "R-SERDE/%s::deserialize" % h, "Deserialize impl for %s is missing in a serde-enabled configuration" % h, None, tag)
             for b in bs:
+                b = inline.inlined(F, b["key"]) or b
                 B = cfg.Body(b)
                 key = b["key"]
                 ok = True
